@@ -500,7 +500,8 @@ pub fn replay(args: &Args) {
         // ---- implementation versus implementation at longer budgets
         // integer payoffs where both sides perform the same floating-point operations up to exact
         // scalings / sign flips; generic payoffs (no exact ties) otherwise (DESIGN 3.4)
-        let same_ops = !(kind == "shift" || (kind == "scale" && c != 2.0 && c != 4.0));
+        // (a rescale by 3/10 or 7/10 leaves the probabilities of a shared chance infoset an ulp apart: not the same operations)
+        let same_ops = !(kind == "shift" || (kind == "scale" && c != 2.0 && c != 4.0) || (kind == "rescale" && div != 0));
         let (mut ga, mut gb) = (t.clone(), t2.clone());
         let mut rng = Rng::new(id as u64 ^ 0x12c);
         if !same_ops {
